@@ -41,7 +41,7 @@ func init() {
 	c := eng.Register(&eng.Check{
 		ID:          "C07",
 		Title:       "Locals bind and sequence left to right; caller data is never modified",
-		Rule:        "every program up to n AST nodes from E := A | $v = E | E , E | [E, E] | rec(E, E) | c ? E : E | (E) | A + A over locals $a $b, the field x and literals, run on 5 initial data maps (empty, with x, with a pre-set local, none, and one holding a nested map, a slice and a number object); every history of up to 3 programs from a pool on one runner; every forbidden assignment target shape; compared with a store-passing reference evaluator (result, locals afterwards, order of recorded host calls) and with a deep identity+content snapshot of the non-$ part of the caller's map; distinct = distinct (result, store) classes",
+		Rule:        "every program up to n AST nodes from E := A | $v = E | E , E | [E, E] | rec(E, E) | c ? E : E | (E) | A + A over locals $a $b, the field x and literals, run on 5 initial data maps (empty, with x, with a pre-set local, none, and one holding a nested map, a slice and a number object); every history of up to 3 programs from a pool on one runner; every forbidden assignment target shape; every operator and builtin applied to a number held in a local or supplied by the caller, directly and through eight operand-preserving forms (selections, sequences, parentheses, identity host function), must leave it unchanged; compared with a store-passing reference evaluator (result, locals afterwards, order of recorded host calls) and with a deep identity+content snapshot of the non-$ part of the caller's map; distinct = distinct (result, store) classes",
 		TrustedBase: []string{"store-passing reference evaluator in checks/c07.go", "internal/ref/parse.go"},
 		Assumptions: []string{"arithmetic on non-numbers yields an unspecified value that is not compared (taint)", "side effects inside the right-hand side of a forbidden assignment are not judged"},
 		Run:         runC07,
@@ -774,6 +774,24 @@ func runC07(w *eng.W) {
 			c := MutCase{Fn: fn, Val: v}
 			w.Sample("operand-mutation", c)
 			c07Mut.Do(w, c)
+		}
+	}
+	// ... also when the operand reaches them through an operator that hands one of its operands on
+	// unchanged (a selection, a sequence, parentheses, a binding, a host function that returns its argument)
+	for _, pass := range []string{"(%s ?? 0)", "(%s || 0)", "(1 && %s)", "((%s))", "(0, %s)", "(1 ? %s : 0)", "idf(%s)", "(null ?? %s)"} {
+		for _, fn := range c07Fns {
+			if !w.Take() {
+				continue
+			}
+			for _, v := range []string{"2.75", "-2.5", "7", "12.50", "9007199254740993.5", "12345678901234567890123e99"} {
+				w.State(1)
+				w.Trans(1)
+				w.Trace(1)
+				w.Note("operand_mutation_through", 1)
+				c := MutCase{Fn: strings.Replace(fn, "%s", pass, -1), Val: v}
+				w.Sample("operand-mutation", c)
+				c07Mut.Do(w, c)
+			}
 		}
 	}
 	// forbidden targets
